@@ -23,7 +23,8 @@ Inductive ltype := LCells | LColours | LColour | LDof | LNull.
 Inductive acc := ARead | AWrite | AReadWrite | AInc | AReadInc | ASum | AUnknown.
 (* continuity of the function space of an argument: Unknown = any_space_n *)
 Inductive cont := Cont | Disc | Unknown.
-Inductive dir := DOmpParallel | DOmpDo | DOmpParallelDo | DAccParallel | DAccLoop.
+(* DAccLoopSeq = ACCLoopDirective carrying the `seq` clause: the loop below it is NOT parallel *)
+Inductive dir := DOmpParallel | DOmpDo | DOmpParallelDo | DAccParallel | DAccLoop | DAccLoopSeq.
 (* outcome of DependencyTools.can_loop_be_parallelised: returns True / returns False / raises
    InternalError or KeyError (caught by independent_iterations) / raises anything else *)
 Inductive daout := DaTrue | DaFalse | DaCaught | DaOther.
@@ -60,7 +61,7 @@ Definition cont_eqb (a b : cont) : bool :=
 Definition dir_eqb (a b : dir) : bool :=
   match a, b with
   | DOmpParallel, DOmpParallel | DOmpDo, DOmpDo | DOmpParallelDo, DOmpParallelDo
-  | DAccParallel, DAccParallel | DAccLoop, DAccLoop => true
+  | DAccParallel, DAccParallel | DAccLoop, DAccLoop | DAccLoopSeq, DAccLoopSeq => true
   | _, _ => false
   end.
 Definition mem_acc (a : acc) (l : list acc) : bool := existsb (acc_eqb a) l.
@@ -71,6 +72,8 @@ Definition is_acc (d : dir) : bool := negb (is_omp d).
 (* directives that parallelise the loop that is their child *)
 Definition is_loop_dir (d : dir) : bool :=
   match d with DOmpDo | DOmpParallelDo | DAccLoop => true | _ => false end.
+(* every directive except `acc loop seq` makes what is below it parallel *)
+Definition dir_parallel (d : dir) : bool := match d with DAccLoopSeq => false | _ => true end.
 
 (* ---------------------------------------------------------------- what the PROPERTY talks about *)
 (* "increments a field on a continuous or unknown function space (increment or
@@ -124,7 +127,7 @@ Definition is_colours_loop (n : node) : bool :=
    of a directive body); `ancs` is the list of the ancestors met on the way, innermost first. *)
 Inductive anc := ALoop (lt : ltype) | ADir (d : dir).
 Definition anc_is_omp (a : anc) : bool := match a with ADir d => is_omp d | _ => false end.
-Definition anc_is_dir (a : anc) : bool := match a with ADir _ => true | _ => false end.
+Definition anc_is_dir (a : anc) : bool := match a with ADir d => dir_parallel d | _ => false end.
 
 Definition splice (i n : nat) (new : list node) (l : list node) : list node :=
   firstn i l ++ new ++ skipn n (skipn i l).
@@ -194,11 +197,22 @@ Definition independent_iterations (incs : list acc) (lt : ltype) (n : node) (da 
       end
   end.
 
-(* ACCLoopTrans: every False answer of independent_iterations on a non-null, non-colours loop
-   comes with a message that is not WARN_SCALAR_WRITTEN_ONCE, so validate raises *)
-Definition accloop_ok (incs : list acc) (lt : ltype) (n : node) (da : daout) : bool :=
-  negb (ltype_eqb lt LNull) && negb (ltype_eqb lt LColours) &&
-  match independent_iterations incs lt n da with Some b => b | None => false end.
+(* number of tightly nested loops starting at n (ParallelLoopTrans.validate, `collapse`) *)
+Definition nest2 (n : node) : bool :=
+  match n with
+  | NLoop _ _ (NLoop _ _ _ :: _) => true
+  | _ => false
+  end.
+
+(* ACCLoopTrans = ParallelLoopTrans.validate with the options sequential / collapse=2 (gang, vector and
+   independent only change clauses).  `sequential` skips the colours test and the dependence analysis.
+   Every False answer of independent_iterations on a non-null, non-colours loop comes with a message
+   that is not WARN_SCALAR_WRITTEN_ONCE, so validate raises. *)
+Definition accloop_ok (incs : list acc) (lt : ltype) (n : node) (da : daout) (seq col2 : bool) : bool :=
+  negb (ltype_eqb lt LNull) && (seq || negb (ltype_eqb lt LColours)) && (negb col2 || nest2 n) &&
+  (seq || match independent_iterations incs lt n da with Some b => b | None => false end).
+(* ACCLoopTrans.apply: the directive carries `seq` iff options["sequential"] *)
+Definition accloop_dir (seq gang vec : bool) : dir := if seq then DAccLoopSeq else DAccLoop.
 
 Definition wrap_loop_f (d : dir) (ok : ltype -> bool -> node -> bool) (i : nat)
            (ancs : list anc) (l : list node) : option (list node) :=
@@ -223,7 +237,7 @@ Inductive op :=
 | OColour (p : list nat) (i : nat)
 | OOmpParDo (p : list nat) (i : nat)
 | OOmpDo (p : list nat) (i : nat)
-| OAccLoop (p : list nat) (i : nat) (da : daout)
+| OAccLoop (p : list nat) (i : nat) (da : daout) (seq gang vec col2 : bool)
 | OOmpParallel (p : list nat) (i n : nat)
 | OAccParallel (p : list nat) (i n : nat).
 
@@ -232,7 +246,8 @@ Definition op_fun (incs : list acc) (sc : bool) (o : op) : list nat * (list anc 
   | OColour p i => (p, colour_f i)
   | OOmpParDo p i => (p, wrap_loop_f DOmpParallelDo (ompparloop_ok incs sc) i)
   | OOmpDo p i => (p, wrap_loop_f DOmpDo (fun lt _ n => omploop_ok incs lt n) i)
-  | OAccLoop p i da => (p, wrap_loop_f DAccLoop (fun lt _ n => accloop_ok incs lt n da) i)
+  | OAccLoop p i da seq gang vec col2 =>
+      (p, wrap_loop_f (accloop_dir seq gang vec) (fun lt _ n => accloop_ok incs lt n da seq col2) i)
   | OOmpParallel p i n => (p, region_f DOmpParallel i n)
   | OAccParallel p i n => (p, region_f DAccParallel i n)
   end.
@@ -259,11 +274,11 @@ Fixpoint invA (par : bool) (n : node) : bool :=
   | NDir d body => forallb (invA (is_loop_dir d)) body
   | _ => true
   end.
-(* part B: no loop over colours below any OpenMP/OpenACC directive *)
+(* part B: no loop over colours below any OpenMP/OpenACC directive other than `acc loop seq` *)
 Fixpoint invB (under : bool) (n : node) : bool :=
   match n with
   | NLoop lt _ body => negb (under && ltype_eqb lt LColours) && forallb (invB under) body
-  | NDir _ body => forallb (invB true) body
+  | NDir d body => forallb (invB (under || dir_parallel d)) body
   | _ => true
   end.
 Definition invA_t (t : tree) : bool := forallb (invA false) t.
@@ -302,7 +317,7 @@ Definition da_ok_f (da : daout) (i : nat) (ancs : list anc) (l : list node) : op
   end.
 Definition da_ok (o : op) (t : tree) : bool :=
   match o with
-  | OAccLoop p i da => match upd p (da_ok_f da i) [] t with Some _ => true | None => false end
+  | OAccLoop p i da _ _ _ _ => match upd p (da_ok_f da i) [] t with Some _ => true | None => false end
   | _ => true
   end.
 Fixpoint hist_ok (ok : op -> tree -> bool) (incs : list acc) (sc : bool) (h : list op) (t : tree) : bool :=
@@ -317,7 +332,7 @@ Fixpoint hist_ok (ok : op -> tree -> bool) (incs : list acc) (sc : bool) (h : li
 Definition op_sel (o : op) (l : list node) : list node :=
   match o with
   | OColour _ _ => []
-  | OOmpParDo _ i | OOmpDo _ i | OAccLoop _ i _ => firstn 1 (skipn i l)
+  | OOmpParDo _ i | OOmpDo _ i | OAccLoop _ i _ _ _ _ _ => firstn 1 (skipn i l)
   | OOmpParallel _ i n | OAccParallel _ i n => firstn n (skipn i l)
   end.
 Definition safeB_f (o : op) (ancs : list anc) (l : list node) : option (list node) :=
@@ -328,7 +343,7 @@ Definition safeB_f (o : op) (ancs : list anc) (l : list node) : option (list nod
        end.
 Definition op_path (o : op) : list nat :=
   match o with
-  | OColour p _ | OOmpParDo p _ | OOmpDo p _ | OAccLoop p _ _ | OOmpParallel p _ _
+  | OColour p _ | OOmpParDo p _ | OOmpDo p _ | OAccLoop p _ _ _ _ _ _ | OOmpParallel p _ _
   | OAccParallel p _ _ => p
   end.
 (* accepted by the code => also passes the guard *)
